@@ -480,6 +480,13 @@ class SStr(Sym):
     def lstrip(self, chars: Any = None) -> Any:
         return cur().str_fn('lstrip' if chars is None else 'lstrip:%r' % (chars,), self)
 
+    def capitalize(self) -> Any:
+        return cur().str_fn('capitalize', self)
+
+    def isascii(self) -> Any:
+        """str.isascii(): every code point is below 128 (true for the empty string)."""
+        return mk_bool(z3.InRe(self.t, z3.Star(z3.Range(z3.StringVal(chr(0)), z3.StringVal(chr(127))))))
+
 
 def _unreached(what: str) -> Any:
     raise Unreached(what)
@@ -1247,6 +1254,44 @@ class SDictItems:
 
     def __pyvc_iter__(self) -> Any:
         raise Unreached('iteration over the items of a symbolic dict')
+
+    def __pyvc_copy_list__(self) -> 'SegList':
+        return SegList([self])
+
+
+class SegList:
+    """list(d.items()) of a symbolic dict, possibly extended with python lists: a concatenation of segments.
+
+    A segment is either an `SDictItems` (every key of that map exactly once, in dict order)
+    or a plain python list.  Only concatenation is supported; contracts inspect `.segments`.
+    """
+
+    __pyvc_symbolic__ = True
+
+    def __init__(self, segments: Any) -> None:
+        self.segments = list(segments)
+
+    def _lift(self, o: Any) -> Any:
+        if isinstance(o, SegList):
+            return list(o.segments)
+        if isinstance(o, list):
+            return [list(o)] if o else []
+        raise Unreached('concatenation of a symbolic item list with %r' % (o,))
+
+    def __pyvc_add__(self, o: Any) -> 'SegList':
+        return SegList(self.segments + self._lift(o))
+
+    def __pyvc_radd__(self, o: Any) -> 'SegList':
+        return SegList(self._lift(o) + self.segments)
+
+    def __pyvc_copy_list__(self) -> 'SegList':
+        return SegList(self.segments)
+
+    def __pyvc_iter__(self) -> Any:
+        raise Unreached('iteration over a list that contains the items of a symbolic dict')
+
+    def __pyvc_truth__(self) -> Any:
+        raise Unreached('truth value of a list that contains the items of a symbolic dict')
 
 
 def Store(arr: Any, k: Any, v: Any) -> Any:
